@@ -172,8 +172,21 @@ def anchored_scenarios():
     return out
 
 
+def separate_format_scenarios():
+    """the outer folder sealed in one format, afterwards a nested history started (or continued) on its own in another:
+    on the untouched tree verify -dh finds nothing"""
+    out = []
+    for order in ("outer-first", "nested-first"):
+        tree = {"a.txt": "a", "child/b.txt": "b", "child/sub/c.txt": "c"}
+        o1 = {"op": "create", "at": "", "h": ["xxh64"], "now": "2026-03-01 12:00:01"}
+        o2 = {"op": "create", "at": "child", "h": ["md5"], "now": "2026-03-01 12:00:02"}
+        ops = ([o1, o2] if order == "outer-first" else [o2, o1, dict(o2, now="2026-03-01 12:00:03", h=["sha1"])]) + [{"op": "verifydh", "at": ""}, {"op": "verifydh", "at": "child"}]
+        out.append({"profile": "c09-separate-format", "root": "root", "tree": tree, "ops": ops, "c09": {"kind": "none", "changed": False, "n_seal": len(ops) - 2, "patterns": [], "flat": False, "resealed": False}})
+    return out
+
+
 def run(ctx):
-    scs = anchored_scenarios() + pattern_change_scenarios() + [build(ctx.seed * 1000507 + i) for i in range(ctx.scale(150, 2500))]
+    scs = separate_format_scenarios() + anchored_scenarios() + pattern_change_scenarios() + [build(ctx.seed * 1000507 + i) for i in range(ctx.scale(150, 2500))]
     # general scenarios: only the "never aborts" part is judged there
     scs += _scn.standard_pool(ctx, ctx.scale(25, 400), ctx.scale(15, 250))
     return _scn.run_scn(ctx, scs, monitor, extra_fails=largefiles.extra(ctx), witness_ids=("D2a", "D2b", "D2c"),
